@@ -1203,8 +1203,11 @@ impl<'r> Gen<'r> {
                 let mut arms = Vec::new();
                 let mut used = BTreeSet::new();
                 for _ in 0..arms_n {
-                    let (re, groups) = *self.r.pick(REGEXES);
-                    if !used.insert(re) {
+                    // half of the arms use one of thousands of distinct (rarely matching)
+                    // patterns, so that a long-running process meets many different regexes
+                    let synthetic = format!("q{}z[a-z]", self.r.below(100_000));
+                    let (re, groups): (&str, usize) = if self.r.chance(1, 2) { (synthetic.as_str(), 0) } else { *self.r.pick(REGEXES) };
+                    if !used.insert(re.to_string()) {
                         continue;
                     }
                     let saved = self.in_scan_groups;
